@@ -99,7 +99,32 @@ func runC14(env *Env, seed uint64, spec orcSpec, blocks *[]c14Block, nb int, gen
 	return tr, restartObs
 }
 
-func c14Compare(env *Env, a, b *c14Trace, from int, tag string, hist []string) bool {
+// c14NormMem removes what may legitimately differ in memory after a recache and is never
+// observable: the filter's nonce sets (replayed messages carry nonce 0) and the stale *closed*
+// round entry of a feeder whose EndBlock has passed (SealRound deletes an expired round only when
+// it is still open; a restarted node never recreates it; both refuse submissions identically).
+func c14NormMem(obs string, spec orcSpec, height uint64) string {
+	obs = reFilterN.ReplaceAllString(obs, "S:")
+	return reRounds.ReplaceAllStringFunc(obs, func(m string) string {
+		sub := reRounds.FindStringSubmatch(m)
+		var keep []string
+		for _, e := range strings.Split(sub[1], ";") {
+			var id, bb, n, st int
+			if _, err := fmt.Sscanf(e, "%d:%d,%d,%d", &id, &bb, &n, &st); err == nil && id >= 1 && id <= len(spec.Feeders) {
+				f := spec.Feeders[id-1]
+				if st == 2 && f.End > 0 && height >= f.End {
+					continue
+				}
+			}
+			if e != "" {
+				keep = append(keep, e)
+			}
+		}
+		return "|R:" + strings.Join(keep, ";") + "|W:"
+	})
+}
+
+func c14Compare(env *Env, spec orcSpec, a, b *c14Trace, from int, tag string, hist []string) bool {
 	memAt, memWhat := -1, ""
 	for i := from; i < len(a.endObs) && i < len(b.endObs); i++ {
 		env.Eval("C14.equiv")
@@ -117,9 +142,9 @@ func c14Compare(env *Env, a, b *c14Trace, from int, tag string, hist []string) b
 			return false
 		}
 		// the filter's nonce sets legitimately differ (replayed messages carry nonce 0): not compared
-		if reFilterN.ReplaceAllString(a.endObs[i], "S:") != reFilterN.ReplaceAllString(b.endObs[i], "S:") && memAt < 0 {
+		if c14NormMem(a.endObs[i], spec, uint64(i+1)) != c14NormMem(b.endObs[i], spec, uint64(i+1)) && memAt < 0 {
 			memAt = i
-			xa, xb := strings.Split(a.endObs[i], "|"), strings.Split(b.endObs[i], "|")
+			xa, xb := strings.Split(c14NormMem(a.endObs[i], spec, uint64(i+1)), "|"), strings.Split(c14NormMem(b.endObs[i], spec, uint64(i+1)), "|")
 			for k := range xa {
 				if k < len(xb) && xa[k] != xb[k] {
 					memWhat = firstN(xa[k], 200) + "  vs  " + firstN(xb[k], 200)
@@ -162,7 +187,7 @@ func c14Directed(env *Env, name, tag string, spec orcSpec, nb, restartAfter int,
 	}
 	if r == "restart-panic" {
 		env.Violate("C14.equiv", "restart-panic"+tag, "the node cannot start: recacheAggregatorContext panics", hist)
-	} else if c14Compare(env, a, b, restartAfter+1, tag, hist) {
+	} else if c14Compare(env, spec, a, b, restartAfter+1, tag, hist) {
 		env.Note("directed-" + name + "-no-divergence")
 	}
 	env.Report.Histories += 2
@@ -261,7 +286,7 @@ func domOracleC14(env *Env) error {
 				env.Violate("C14.equiv", "restart-panic", "the node cannot start: recacheAggregatorContext panics", hist)
 				continue
 			}
-			if c14Compare(env, a, b, k+1, "", hist) {
+			if c14Compare(env, spec, a, b, k+1, "", hist) {
 				env.Outcome("restart-equivalent")
 			}
 		}
